@@ -44,6 +44,10 @@ def is_deadline(test, stmts):
         l, r, op = r, l, {ast.Lt: ast.Gt, ast.LtE: ast.GtE}[op]
     if op not in (ast.Gt, ast.GtE):
         return None
+    # the same comparison on integers, written on the elapsed ticks: counter - request > margin
+    if l == 'self.instance_status.sequence_counter - self.request_sequence_counter' and \
+            r in ('self.wait_ticks', 'self.minimum_ticks'):
+        return r.split('.')[1], ('>' if op is ast.Gt else '>=')
     if l != 'self.instance_status.sequence_counter':
         return None
     for margin in ('self.wait_ticks', 'self.minimum_ticks'):
@@ -315,6 +319,9 @@ def run(P, R):
     # what is REPORTED in progress: the starting / stopping jobs declared by a peer are forgotten with the peer
     from . import shared
     shared.modes_forgotten_when_lost(P, R, r4)
+    # a command planned on an instance chosen in advance is not requested there once the instance is lost (its deadline
+    # would count the ticks of the lost instance and never expire)
+    shared.preassigned_target_withdrawn(P, R, r4)
 
     # ---------------------------------------------------------------- R5
     r5 = R.rule('R5', 'normalised expression', 'wait_ticks = ceil(secs / Tick5Event.period) + minimum_ticks, fed from '
